@@ -1122,7 +1122,10 @@ class GenFunctions(object):
         ----------
         node : ast.FunctionNode
         """
-        # fortran_generic must already be empty
+        # fortran_generic must already be empty.
+        # Clones (default arguments) share the list object of the
+        # declaration: give this node its own.
+        node.fortran_generic = []
         options = node.options
         params = node.ast.params
 
